@@ -5,7 +5,7 @@ import ast
 import math
 import z3
 
-from .values import (Sym, SBool, SInt, SReal, SFP, SStr, SBytes, SHex, SOpaque, Unsupported, SNorm, norm_eq_regex,
+from .values import (Sym, SBool, SInt, SReal, SFP, SStr, SBytes, SHex, SOpaque, Unsupported, SNorm, norm_eq_regex, SBytesBV,
                      contains_sym, float_to_real, fp_const, FP64, RNE, pytype_of)
 from .explore import SymRaise
 
@@ -734,6 +734,8 @@ def py_len(ctx, v):
         return SInt(z3.Length(v.term))
     if isinstance(v, SHex):
         return v.nbits // 4
+    if isinstance(v, SBytesBV):
+        return v.nbytes
     if isinstance(v, Sym):
         if isinstance(v, (SInt, SReal, SFP, SBool)):
             raise SymRaise(TypeError("object of type '%s' has no len()" % v.pytype.__name__))
@@ -749,6 +751,24 @@ def py_len(ctx, v):
 def getitem(ctx, obj, idx):
     if hasattr(obj, "pysym_getitem"):
         return obj.pysym_getitem(ctx, idx)
+    if isinstance(obj, SBytesBV):
+        n = obj.nbytes
+        if isinstance(idx, slice):
+            if contains_sym((idx.start, idx.stop, idx.step)):
+                raise Unsupported("symbolic slice of digest bytes")
+            a, b, st = idx.indices(n)
+            if st != 1:
+                raise Unsupported("stepped slice of digest bytes")
+            if b <= a:
+                return b""
+            return SBytesBV(z3.Extract(8 * (n - a) - 1, 8 * (n - b), obj.term))
+        if isinstance(idx, int):
+            if not -n <= idx < n:
+                raise SymRaise(IndexError("index out of range"))
+            i = idx % n
+            bv = z3.Extract(8 * (n - i) - 1, 8 * (n - i - 1), obj.term)
+            return SInt(z3.BV2Int(bv, False), bv=bv)
+        raise Unsupported("indexing digest bytes with %s" % type(idx).__name__)
     if isinstance(obj, SHex):
         n = obj.nbits // 4
         if isinstance(idx, slice):
